@@ -107,74 +107,8 @@ mod dbscan {
     }
 }
 
-mod enet {
-    use super::*;
-    use linfa_elasticnet::{ElasticNet, ElasticNetError};
-
-    #[kani::proof]
-    #[kani::unwind(5)]
-    fn c04_fit_elasticnet_penalty() {
-        let l1: f64 = fin();
-        let tol: f64 = fin();
-        let max_iter: u32 = kani::any();
-        let p = ElasticNet::<f64>::params().penalty(-1.0).l1_ratio(l1).tolerance(tol).max_iterations(max_iter);
-        let ds = Dataset::new(array![[1.0f64], [2.0]], array![1.0f64, 2.0]);
-        witness_reached();
-        let r = p.fit(&ds);
-        assert!(matches!(&r, Err(ElasticNetError::InvalidPenalty(x)) if *x == -1.0), "C04: fit() on an invalid unchecked builder did not return exactly check_ref()'s error");
-        std::mem::forget(r);
-        std::mem::forget(ds);
-    }
-
-    #[kani::proof]
-    #[kani::unwind(5)]
-    fn c04_fit_elasticnet_l1_ratio() {
-        let tol: f64 = fin();
-        let max_iter: u32 = kani::any();
-        let p = ElasticNet::<f64>::params().penalty(1.0).l1_ratio(1.5).tolerance(tol).max_iterations(max_iter);
-        let ds = Dataset::new(array![[1.0f64], [2.0]], array![1.0f64, 2.0]);
-        witness_reached();
-        let r = p.fit(&ds);
-        assert!(matches!(&r, Err(ElasticNetError::InvalidL1Ratio(x)) if *x == 1.5), "C04: fit() on an invalid unchecked builder did not return exactly check_ref()'s error");
-        std::mem::forget(r);
-        std::mem::forget(ds);
-    }
-}
-
-mod trees {
-    use super::*;
-    use linfa_trees::DecisionTree;
-
-    #[kani::proof]
-    #[kani::unwind(5)]
-    #[kani::stub(alloc::fmt::format, crate::util::fmt_stub)]
-    fn c04_fit_trees_min_impurity() {
-        let mws: f32 = fin();
-        let mwl: f32 = fin();
-        let depth: Option<usize> = if kani::any() { Some(kani::any()) } else { None };
-        let p = DecisionTree::<f64, usize>::params().min_impurity_decrease(0.0).min_weight_split(mws).min_weight_leaf(mwl).max_depth(depth);
-        let ds = Dataset::new(array![[1.0f64], [2.0]], array![0usize, 1]);
-        witness_reached();
-        let r = p.fit(&ds);
-        assert!(matches!(r, Err(linfa::Error::Parameters(_))), "C04: fit() on an invalid unchecked builder did not return exactly check_ref()'s error");
-        std::mem::forget(r);
-        std::mem::forget(ds);
-    }
-}
-
-mod bayes {
-    use super::*;
-    use linfa_bayes::{GaussianNb, NaiveBayesError};
-
-    #[kani::proof]
-    #[kani::unwind(5)]
-    fn c04_fit_gaussian_nb_smoothing() {
-        let p = GaussianNb::<f64, usize>::params().var_smoothing(-1.0);
-        let ds = Dataset::new(array![[1.0f64], [2.0]], array![0usize, 1]);
-        witness_reached();
-        let r = p.fit(&ds);
-        assert!(matches!(&r, Err(NaiveBayesError::InvalidSmoothing(x)) if *x == -1.0), "C04: fit() on an invalid unchecked builder did not return exactly check_ref()'s error");
-        std::mem::forget(r);
-        std::mem::forget(ds);
-    }
-}
+// Tried and left to the mock (measured, 14 GB / 30 min cap): the same shape of harness for
+//   ElasticNetParams::fit   (penalty = -1 / l1_ratio = 1.5)  -> verified, but 18-27 min and 9-10 GB each
+//   DecisionTreeParams::fit (min_impurity_decrease = 0)      -> symex did not finish in 30 min (hashbrown)
+//   GaussianNbParams::fit   (var_smoothing = -1)             -> symex did not finish in 30 min (SipHash)
+// CBMC explores the trainer although the failing test is concrete (`is_negative()` is not constant-folded).
